@@ -274,6 +274,17 @@ def main(ctx: Ctx):
         if i % 3 == 0:
             Js, _, _, _ = m_svd(rng, m, max(ncol, 2))
             check_cagrad(ctx, exact_of(to_tensor(Js, dtype)), dtype)
+        if i % 6 == 1:
+            # full rank but ill-conditioned (condition number 1e2..1e3): rows that nearly cancel along one dominant direction
+            mm = rng.choice([2, 3])
+            K = rng.choice([100, 300, 1000])
+            extra = mm - 1 + rng.choice([0, 1])
+            Ji = [[Fr(rng.choice([-1, 1]) * (K + rng.randint(-9, 9)))] + [Fr(rng.randint(1, 6)) for _ in range(extra)]
+                  for _ in range(mm)]
+            if all(r[0] > 0 for r in Ji) or all(r[0] < 0 for r in Ji):
+                Ji[0][0] = -Ji[0][0]
+            ctx.count("cagrad_ill_conditioned")
+            check_cagrad(ctx, Ji, torch.float64)
     ctx.cov["pcgrad_exhaustive_orders"] = "all (m-1)!^m projection-order combinations for m <= 4"
     return ctx.finish(
         rule="integer matrices (plain / duplicated / collinear rows), m<=4: MGDA short-horizon weights == model "
